@@ -286,7 +286,7 @@ func (e *Enc) bigCall(ins ssa.Instruction, name string, callee *ssa.Function, si
 	reach := e.reach[e.curBlock]
 	e.trustedUsed["external math/big: each method computes the mathematical operation on arbitrary-precision integers; Int64 returns the low 64 bits"] = true
 	big := func() string { return e.heapGet(h, "$big", "Int") }
-	val := func(r Val) string { return app("select", big(), r.T) }
+	val := func(r Val) string { return e.sel(big(), r.T) }
 	setZ := func(z Val, t string) {
 		n := e.fresh("bigv", "Int")
 		e.assert(app("=", n, t))
@@ -348,8 +348,35 @@ func (e *Enc) bigCall(ins ssa.Instruction, name string, callee *ssa.Function, si
 	case "Lsh", "Rsh", "And", "Or", "Xor", "Not", "AndNot", "Exp", "SetBytes", "SetBit", "Sqrt", "GCD", "ModInverse", "SetString", "Lsh64":
 		recvNonNil()
 		n := e.fresh("bigop", "Int")
-		if m == "SetBytes" {
-			e.assert(app(">=", n, "0"))
+		ci := ins.(ssa.CallInstruction).Common()
+		switch m {
+		case "SetBytes":
+			e.needBE = true
+			e.assert(and(app(">=", n, "0"), app("=", n, app("be_of", e.heapGet(h, "T:uint8", "Int"), args[1].T))))
+		case "Rsh", "Lsh":
+			x := val(args[1])
+			if k, ok := isConstInt(ci.Args[2]); ok && k >= 0 && k < 4096 {
+				p := pow2(uint(k)).String()
+				if m == "Rsh" {
+					e.assert(app("=", n, app("div", x, p)))
+				} else {
+					e.assert(app("=", n, app("*", x, p)))
+				}
+			} else {
+				// sign is preserved; magnitude is not modelled for symbolic shift counts
+				e.assert(and(implies(app(">=", x, "0"), app(">=", n, "0")), implies(app("<", x, "0"), app("<", n, "0"))))
+				if m == "Rsh" {
+					e.assert(implies(app(">=", x, "0"), app("<=", n, x)))
+				}
+			}
+		case "Not":
+			e.assert(app("=", n, app("-", app("-", val(args[1])), "1")))
+		case "And":
+			x, y := val(args[1]), val(args[2])
+			e.assert(implies(and(app(">=", x, "0"), app(">=", y, "0")), and(app(">=", n, "0"), app("<=", n, x), app("<=", n, y))))
+		case "Or":
+			x, y := val(args[1]), val(args[2])
+			e.assert(implies(and(app(">=", x, "0"), app(">=", y, "0")), and(app(">=", n, x), app(">=", n, y))))
 		}
 		if m == "SetString" {
 			// (z, ok)
@@ -410,6 +437,15 @@ func (e *Enc) bigCall(ins ssa.Instruction, name string, callee *ssa.Function, si
 			if r.S == "Slice" {
 				e.assertFresh(r, h)
 			}
+		}
+		if m == "Bytes" {
+			// big-endian magnitude: empty iff zero; be_of ties it to SetBytes
+			e.needBE = true
+			x := val(args[0])
+			e.assert(implies(reach, and(
+				app("=", app("=", app("slen", rs[0].T), "0"), app("=", x, "0")),
+				app("=", app("be_of", e.heapGet(h, "T:uint8", "Int"), rs[0].T), app("abs", x)),
+				app("distinct", app("sarr", rs[0].T), "nil"))))
 		}
 		e.setResult(res, rs)
 	default:
